@@ -54,6 +54,20 @@ def explore(body, atoms, start=0, start_assign=None, max_states=200000, mark_edg
     terminals = []
     visited = set()
     init = tuple(sorted((start_assign or {}).items()))
+    # booleans worth tracking: user variables that some switch tests (directly or through one copy)
+    tracked = set()
+    for blk0 in body.blocks:
+        t0 = blk0['t']
+        if t0['k'] == 'switch' and t0.get('onty') == 'bool' and t0['on'].get('k') in ('cp', 'mv') and not t0['on']['pl'].get('p'):
+            l0 = t0['on']['pl']['l']
+            if body.varnames.get(l0):
+                tracked.add(l0)
+            for st0 in blk0['s']:
+                rv0 = st0.get('rv')
+                if rv0 and not st0['pl'].get('p') and st0['pl']['l'] == l0 and rv0['k'] == 'use' and rv0['a'].get('k') in ('cp', 'mv') and not rv0['a']['pl'].get('p'):
+                    if body.varnames.get(rv0['a']['pl']['l']):
+                        tracked.add(rv0['a']['pl']['l'])
+                        tracked.add(l0)
     stack = [(start, init, False, (start,))]
     n = 0
     while stack:
@@ -67,6 +81,40 @@ def explore(body, atoms, start=0, start_assign=None, max_states=200000, mark_edg
             raise RuntimeError('path exploration exceeded %d states in %s' % (max_states, body.id))
         if bb in errs:
             via_err = True
+        # constant propagation of booleans assigned on this path (materialised `a || b`, flags such as `found = false`)
+        blk_ = body.blocks[bb]
+        for st_ in blk_['s']:
+            if 'dead' in st_:
+                kd_ = '#%d' % st_['dead']
+                if kd_ in dict(assign):
+                    d_ = dict(assign)
+                    del d_[kd_]
+                    assign = tuple(sorted(d_.items()))
+                continue
+            rv_ = st_.get('rv')
+            if rv_ is None or st_['pl'].get('p'):
+                continue
+            if st_['pl']['l'] not in tracked:
+                continue
+            l_ = st_['pl']['l']
+            key_ = '#%d' % l_
+            d_ = dict(assign)
+            if rv_['k'] == 'use' and rv_['a'].get('k') == 'c' and rv_['a'].get('ty') == 'bool' and rv_['a'].get('int') in (0, 1):
+                d_[key_] = bool(rv_['a']['int'])
+                assign = tuple(sorted(d_.items()))
+            elif rv_['k'] == 'use' and rv_['a'].get('k') in ('cp', 'mv') and not rv_['a']['pl'].get('p') and ('#%d' % rv_['a']['pl']['l']) in d_:
+                d_[key_] = d_['#%d' % rv_['a']['pl']['l']]
+                assign = tuple(sorted(d_.items()))
+            elif key_ in d_:
+                del d_[key_]
+                assign = tuple(sorted(d_.items()))
+        t_ = blk_['t']
+        if t_['k'] == 'call' and t_.get('dest') and not t_['dest'].get('p'):
+            key_ = '#%d' % t_['dest']['l']
+            if key_ in dict(assign):
+                d_ = dict(assign)
+                del d_[key_]
+                assign = tuple(sorted(d_.items()))
         if mark_blocks:
             for mname, blks in mark_blocks.items():
                 if bb in blks and dict(assign).get(mname) is not True:
@@ -82,6 +130,30 @@ def explore(body, atoms, start=0, start_assign=None, max_states=200000, mark_edg
             if bb not in preds_cache:
                 preds_cache[bb] = switch_edge_predicates(body, bb, origin)
             ad = dict(assign)
+            # a switch on a local whose boolean value is known on this path takes one edge only
+            on_ = t['on']
+            if t.get('onty') == 'bool' and on_.get('k') in ('cp', 'mv') and not on_['pl'].get('p') and ('#%d' % on_['pl']['l']) in ad:
+                val_ = ad['#%d' % on_['pl']['l']]
+                tgt_ = None
+                for v_, tg_ in t['tg']:
+                    if bool(v_) == val_:
+                        tgt_ = tg_
+                if tgt_ is None:
+                    tgt_ = t['else']
+                # still record named atoms for the taken edge
+                for tg2, pred in preds_cache[bb]:
+                    if tg2 == tgt_:
+                        for a in atoms:
+                            v = a.match(pred)
+                            if v is not None:
+                                seen_atoms.setdefault(a.name, set()).add(bb)
+                                if a.name in ad and ad[a.name] != v:
+                                    tgt_ = None
+                                    break
+                                ad[a.name] = v
+                if tgt_ is not None:
+                    stack.append((tgt_, _mark(ad, mark_edges, bb, tgt_), via_err, path + (tgt_,)))
+                continue
             for tg, pred in preds_cache[bb]:
                 new = dict(ad)
                 ok = True
